@@ -70,7 +70,10 @@ class Speaker(metaclass=ABCMeta):
 
             # Saving of the current value for the next iteration
             listener.prev = orb
-        return sorted(results, key=lambda x: x.date)
+
+        # The events are given in the order of the iteration, which may go backward in time
+        backward = bool(results) and results[0].date > orb.date
+        return sorted(results, key=lambda x: x.date, reverse=backward)
 
     def _bisect(self, begin, end, listener):
         """This method search for the zero-crossing of the watched parameter
